@@ -18,6 +18,10 @@ Proof.
   unfold pstep. rewrite H. cbn [fst snd]. rewrite (IH s H). reflexivity.
 Qed.
 
+Lemma prun_cons s e evs :
+  prun s (e :: evs) = (fst (prun (fst (pstep s e)) evs), snd (pstep s e) ++ snd (prun (fst (pstep s e)) evs)).
+Proof. reflexivity. Qed.
+
 Lemma pmsg_eqb_refl m : pmsg_eqb m m = true.
 Proof.
   unfold pmsg_eqb. rewrite !Z.eqb_refl, !Bool.eqb_reflx. reflexivity.
@@ -246,12 +250,10 @@ Proof.
   - cbn [app map prun]. rewrite (pstep_conn_invalid m post Hm). cbn [fst snd].
     rewrite prun_halted by reflexivity. reflexivity.
   - cbn [msgs_valid forallb] in Hv. apply andb_true_iff in Hv as [H0 Hv].
-    cbn [app map prun]. rewrite (pstep_conn_valid p0 _ H0). cbn [fst snd].
-    change (EPublished :: map (fun _ : pmsg => EPublished) pre ++ more)
-      with ((EPublished :: map (fun _ : pmsg => EPublished) pre) ++ more).
-    rewrite published_swap, <- app_assoc.
+    rewrite <- app_comm_cons. rewrite prun_cons. rewrite (pstep_conn_valid p0 _ H0). cbn [fst snd].
+    cbn [map]. rewrite published_swap, <- app_assoc.
     rewrite (prun_prefix pre (m :: post) ([EPublished] ++ more) Hv).
-    cbn [app prun]. rewrite (pstep_pub_invalid m post Hm). cbn [fst snd].
+    cbn [app]. rewrite prun_cons. rewrite (pstep_pub_invalid m post Hm). cbn [fst snd].
     rewrite prun_halted by reflexivity. cbn [fst snd app]. reflexivity.
 Qed.
 
